@@ -59,6 +59,9 @@ def body(c):
             for delta in (-1, 0, None):
                 if dt == "object" and lay.startswith("memmap"): continue        # a memory map of object pointers is meaningless in another process
                 pcases.append({"dtype": dt, "shape": "bigmat" if lay in ("F", "transposed", "memmap_T", "memmap_strided") else "big", "layout": lay, "delta": delta})
+    # every documented mmap_mode of Parallel ("None will disable memmapping")
+    pmodes = ["r", "c", "None", "r+", "w+"]
+    for k, cs in enumerate(pcases): cs["mode"] = pmodes[k % len(pmodes)]
     pj = [(base, 100 + k, pcases[k::4], True) for k in range(4)]
     # the same round trips with assertions stripped (python -O / PYTHONOPTIMIZE): nothing may depend on an assert statement
     ocases = cases[:: max(1, len(cases) // (150 if c.quick else 2000))]
